@@ -184,3 +184,11 @@ def deref(fn: ast.AST, node: Optional[ast.AST], depth: int = 3) -> Optional[ast.
         node = defs[0].value
         depth -= 1
     return node
+
+
+def attr_base(node: ast.AST) -> Optional[str]:
+    """Name at the base of a subscript/attribute chain."""
+    cur = node
+    while isinstance(cur, (ast.Subscript, ast.Attribute)):
+        cur = cur.value
+    return cur.id if isinstance(cur, ast.Name) else None
